@@ -22,9 +22,10 @@ import (
 // blockRef is what the builder produced for one height: the reference every importer must
 // reproduce.
 type blockRef struct {
-	detained       *big.Int // Σ value detained by this block's applied create/deposit/delegation-add transactions
-	stakingApplied bool     // the block contains a successfully applied staking-module transaction
-	refundCap      *big.Int // Σ gasUsed*price/2 over applied calls that earn an EVM gas refund (upper bound of what refunds are worth)
+	detained           *big.Int // Σ value detained by this block's applied create/deposit/delegation-add transactions
+	evidenceUnrecorded bool     // a genuine double-sign evidence for the parent round was handed to the builder, yet the block carries no slash data
+	stakingApplied     bool     // the block contains a successfully applied staking-module transaction
+	refundCap          *big.Int // Σ gasUsed*price/2 over applied calls that earn an EVM gas refund (upper bound of what refunds are worth)
 
 	tainted  string // non-empty: executing this block sets a state database error (see sim.taintCheck)
 	blk      *types.Block
@@ -104,7 +105,7 @@ func (s *sim) runHistory(h hooks) {
 	r.Logf("actors%s starve=%d", sb.String(), s.g.starve)
 	var hist []voteRec
 	tainted := false
-	for n := 1; n <= h.blocks && !s.dead; n++ {
+	for n := 1; n <= h.blocks && !s.dead && !s.stopRun; n++ {
 		r.Logf("-- block %d", n)
 		if s.onlineAny() == 0 {
 			// nobody is online in the head state any more (the look-back set would keep the
@@ -177,7 +178,7 @@ func (s *sim) runHistory(h hooks) {
 			h.onBuilt(n, ref)
 		}
 	}
-	if h.atEnd != nil && !s.dead && !tainted {
+	if h.atEnd != nil && !s.dead && !tainted && !s.stopRun {
 		h.atEnd()
 	}
 	r.Nontrivial()
@@ -285,7 +286,8 @@ func (s *sim) observeBuilt(n int, blk *types.Block) *blockRef {
 	if tainted == "" {
 		r.Logf("  state=%s receipts=%s accounts=%d validators=%d", view.digest, dg, len(view.accounts), len(view.rawVals))
 	}
-	return &blockRef{blk: blk, view: view, rcDigest: dg, rcText: lines, tainted: tainted, detained: detained, refundCap: refundCap, stakingApplied: stakingApplied}
+	return &blockRef{blk: blk, view: view, rcDigest: dg, rcText: lines, tainted: tainted, detained: detained, refundCap: refundCap, stakingApplied: stakingApplied,
+		evidenceUnrecorded: s.g.evidenceFor != 0 && s.g.evidenceFor+1 == uint64(n) && len(hdr.SlashData) == 0}
 }
 
 func mustSender(tx *types.Transaction) common.Address {
